@@ -45,6 +45,9 @@ def instances(tier, seed):
         for wtype, w in variants:
             sp = dict(s, wtype=wtype, w=list(w), a=[4, 8] if tier == 'quick' else [4, 8])
             out.append({'id': mpslib.prog_id(sp), 'spec': sp, 'wseed': seed})
+            if wtype == 'layer' and not s.get('bn'):
+                # hard-sampling mode reached through an option update while training (the statement: "eval or hard-sampling mode")
+                out.append({'id': mpslib.prog_id(sp) + ':train+hard', 'spec': sp, 'wseed': seed, 'train_hard': True})
     return out
 
 
@@ -147,6 +150,9 @@ def concrete_case(rec):
                 if 'w_mps_quantizer' not in name:
                     q.alpha.copy_(torch.tensor(rng.permutation(q.alpha.shape[0]).astype('float32') / 4).reshape(q.alpha.shape))
     mpslib.set_alphas(m, rec['alphas'])
+    if rec.get('train_hard'):
+        m.train()
+        m.update_softmax_options(hard=True)
     with torch.no_grad():
         m(torch.zeros((1,) + tuple(shape)))
         got = {k: float(m.get_cost(k)) for k in ('params_bit', 'ops_bit')}
@@ -174,6 +180,9 @@ def run_instance(p):
     res = InstanceResult(p['id'])
     spec, wseed, selftest = p['spec'], p.get('wseed', 0), p.get('selftest', False)
     m, model, shape = mpslib.make_mps(spec, wseed, cost=_specs())
+    if p.get('train_hard'):
+        m.train()
+        m.update_softmax_options(hard=True)
     from plinio.methods.mps.nn import MPSLinear
 
     # per-channel search: p^C assignments per layer - the weight-precision coefficients are symbolic, the activation coefficients keep a fixed
@@ -225,7 +234,7 @@ def run_instance(p):
         alphas = mpslib.values_of(mm, sy)
         if not bad_here:
             if n <= 6 or n % 5 == 0:
-                got, tot_c, shown_c, per_c, summ_c = concrete_case({'spec': spec, 'wseed': wseed, 'alphas': jsonable(alphas)})
+                got, tot_c, shown_c, per_c, summ_c = concrete_case({'spec': spec, 'wseed': wseed, 'alphas': jsonable(alphas), 'train_hard': p.get('train_hard', False)})
                 if n <= 2:
                     res.sample({'program': mpslib.prog_id(spec), 'alphas': alphas, 'summary': summ, 'cost': got, 'exact': tot_c})
                 if all(abs(got[k] - tot_c[k]) <= 1e-4 * max(1, tot_c[k]) for k in got) and summ_c == summ:
@@ -241,10 +250,10 @@ def run_instance(p):
             if obs in tot:
                 cv = st.model_value(mm, costs[obs]) if st.is_sym(costs[obs]) else costs[obs]
                 direction = '|cost<exact' if cv < tot[obs] else '|cost>exact'
-            key = f'{obs}|layer:{lt}|search:{"per_channel+0bit" if zero else ("per_channel" if spec["wtype"] == "channel" else "per_layer")}|{mpslib.prog_id(spec)}{direction}' + ('|selftest' if selftest else '')
+            key = ('train+hard|' if p.get('train_hard') else '') + f'{obs}|layer:{lt}|search:{"per_channel+0bit" if zero else ("per_channel" if spec["wtype"] == "channel" else "per_layer")}|{mpslib.prog_id(spec)}{direction}' + ('|selftest' if selftest else '')
             if any(v['key'] == key for v in res.violations):
                 continue
-            rec = {'spec': spec, 'wseed': wseed, 'alphas': alphas, 'observable': obs, 'layer': layer, 'key': key, 'summary': summ,
+            rec = {'spec': spec, 'wseed': wseed, 'alphas': alphas, 'observable': obs, 'layer': layer, 'key': key, 'summary': summ, 'train_hard': p.get('train_hard', False),
                    'what': f'{mpslib.prog_id(spec)}: {obs} {layer or ""}: cost/shown value {costs.get(obs) if obs in costs else shown[layer][obs.split("_")[1]]} but exact {tot.get(obs) if obs in tot else per[layer]} at summary {summ}'[:600]}
             if selftest:
                 res.violations.append(jsonable(rec))
